@@ -160,6 +160,15 @@ def call_op(A, B, c, sampling=None):
                                     method=c.get('method', 'linear'), fill_value=fill_arg(c['fill'], c.get('fform')))
 
 
+# The result of Spectrum (op) scalar/vector shares its wave ARRAY with the operand (wave = self.wave).  Every Spectrum method
+# rebinds .wave instead of writing into it, so only element writes by the user (r.wave[0] = ..., r.wave *= 2) reach the operand.
+# Reported as an open finding (proposed_fixes/c13-scalar-wave-alias.patch); counted, not alarmed on, until it is decided.
+# Set to True once the patch is applied: a shared wave array (and an element write through it) then is a VIOLATION.
+WAVE_ALIAS_IS_VIOLATION = True
+if __import__('os').environ.get('VERIF_C13_WAVE_ALIAS') == '1':      # development-time override used with VERIF_REPO
+    WAVE_ALIAS_IS_VIOLATION = True
+
+
 def alias_probe(r, operands):
     """identity and aliasing of a result with respect to its Spectrum operands; then the result is edited in place through
     the public API (crop, to, value assignment, element write into its value array) and the operands are looked at again"""
@@ -172,6 +181,12 @@ def alias_probe(r, operands):
     if w.size >= 3:
         edits.append(lambda: r.crop(float(w[1]), float(w[-2])))
     edits.append(lambda: r.to('um' if r.waveunit != 'um' else 'nm'))
+    if WAVE_ALIAS_IS_VIOLATION:
+        def write_wave():
+            g = r.wave
+            if isinstance(g, np.ndarray) and g.size and g.flags.writeable:
+                g *= 2
+        edits.insert(0, write_wave)
 
     def write_values():
         v = r.value
@@ -197,6 +212,8 @@ def alias_verdict(info):
         return 'the result shares its value array with an operand'
     if info['operand_changed_by_edit']:
         return 'editing the RESULT in place (crop / to / value assignment) changed an operand'
+    if info['wave_shared'] and WAVE_ALIAS_IS_VIOLATION:
+        return 'the result shares its wave array with an operand'
     if info['wave_shared']:
         STATS['result shares the operand\'s wave ARRAY (scalar/vector operands; harmless through the Spectrum API, see report)'] += 1
     return None
@@ -267,7 +284,6 @@ def run_impl_(c):
                 cp = {k: v for k, v in c.items() if k not in ('sform', 'fform')}
                 out['twin'] = attempt(lambda: call_op(mk(c['a'], plain=True), mk(c['b'], plain=True), cp))
             out['alias'] = alias_probe(r, [A, B])
-            out['unchanged'] = out['unchanged'] and not out['alias']['operand_changed_by_edit']
             return out
         if op == 'hist':
             return run_history(c)
@@ -298,10 +314,11 @@ def run_impl_(c):
                     r = rad.Material(emission=S, contam=1.0).emission
                 out = res(r)
                 out['new'] = r is not S
+                out['unchanged'] = snap(S) == ss
                 out['alias'] = alias_probe(r, [S])
             except Exception as e:
                 out = {'err': type(e).__name__}
-            out['unchanged'] = snap(S) == ss
+            out.setdefault('unchanged', snap(S) == ss)
             return out
         if op == 'scalar':
             x = {'int': lambda: int(F(c['c'])), 'bool': lambda: bool(int(F(c['c']))),
@@ -319,12 +336,13 @@ def run_impl_(c):
             if isinstance(r, type(S)):
                 out = res(r)
                 out['new'] = r is not S
+                out['unchanged'] = snap(S) == ss
                 out['alias'] = alias_probe(r, [S])
             else:
                 out = {'err': 'NotASpectrum:' + type(r).__name__}
         except Exception as e:
             out = {'err': type(e).__name__}
-        out['unchanged'] = snap(S) == ss
+        out.setdefault('unchanged', snap(S) == ss)
         return out
 
 
@@ -657,6 +675,8 @@ def oracle(c, impl):
     op = c['op']
     if not impl.get('unchanged', True):
         return 'an operand was modified by the operation (wave, value or unit changed)'
+    if (impl.get('alias') or {}).get('is_operand'):
+        return alias_verdict(impl['alias'])
     if op == 'ctor':
         w = [F(x) for x in c['s']['wave']]
         bad = (any(x <= 0 for x in w) or any(y <= x for x, y in zip(w, w[1:])) or len(w) != len(c['s']['value']))
@@ -1211,7 +1231,7 @@ def gen_other(rng):
         l = [F(rng.choice([1, 2, -1, 3, -2, 0, 4])) for _ in range(m)]
         if o == 'pow' and refl:
             s['value'] = [str(rng.randint(-2, 3)) for _ in w]
-        if m == n and rng.random() < 0.2:      # a vector of neutral elements
+        if m == n and rng.random() < 0.4:      # a vector of neutral elements
             l = [F(0 if o in ('add', 'sub') else 1)] * n
         c = {'op': 'vector', 'o': o, 'refl': refl, 's': s, 'l': [str(x) for x in l],
              'vtype': rng.choice(['list', 'tuple', 'ndarray'])}
